@@ -229,6 +229,7 @@ class SimA(Simulator):
         users = ["u1", "u2"]
         conns: list[tuple[str, str]] = []
         nconn = 0
+        later = None
         for _ in range(rng.randint(3, 14)):
             r = rng.random()
             if r < 0.3 or not conns:
@@ -252,9 +253,23 @@ class SimA(Simulator):
             elif r < 0.7:
                 c, u = rng.choice(conns)
                 ops.append(["unreg", rng.choice(["E1", "E2"]), u])
+            elif r < 0.76:
+                # the unit's engine goes away and (sometimes only later) comes back: its engine data is created anew
+                e = rng.choice(["E1", "E2"]) if any(o[0] == "register" and o[1] == "E2" for o in ops) else "E1"
+                ops.append(["disconnect", e])
+                back = [["register", e], ["connect", e], ["uodinfo", e, 1.0]]
+                if rng.random() < 0.5:
+                    ops += back
+                else:
+                    later = back
             else:
                 c, u = conns.pop(rng.randrange(len(conns)))
                 ops.append(["disc", c])
+            if later and rng.random() < 0.5:
+                ops += later
+                later = None
+        if later:
+            ops += later
         return {"cfg": {}, "ops": ops}
 
     def _gen_ids(self, rng: random.Random, tier: str) -> dict:
@@ -361,6 +376,8 @@ class SimA(Simulator):
         run_stopped_delivered: dict[str, int] = {}
         live: dict[str, set] = {}       # conn -> users that subscribed their dead man's switch on it
         registered: set[tuple[str, str]] = set()
+        optional: set[tuple[str, str]] = set()     # registered before the unit's engine reconnected: may be listed, need not
+        self._optional = optional
         crash_restart_during: set[str] = set()
         active_run: dict[str, str | None] = {}
         errorlog_truth: list[tuple[str, int, float]] = []
@@ -432,6 +449,12 @@ class SimA(Simulator):
                 if ch is not None:
                     await w.dispatcher.on_client_disconnect(ch)
                     res.fault("engine_disconnect")
+                    # the unit's engine data is dropped with its active users: a registration made before is no longer
+                    # *required* to show (the statement only says when a user may be listed)
+                    for (ee, u) in list(registered):
+                        if ee == e:
+                            registered.discard((ee, u))
+                            optional.add((ee, u))
             elif k == "restart":
                 kind = op[1]
                 if kind == "graceful":
@@ -600,12 +623,14 @@ class SimA(Simulator):
                 return
             if await ff.register_active_user(w.engine_ids[e], u, u):
                 registered.add((e, u))
+                self._optional.discard((e, u))
         elif k == "unreg":
             e, u = op[1], op[2]
             if w.engine_ids.get(e) is None:
                 return
             await ff.unregister_active_user(w.engine_ids[e], u)
             registered.discard((e, u))
+            self._optional.discard((e, u))
         elif k == "disc":
             c = op[1]
             if c not in live:
@@ -620,6 +645,9 @@ class SimA(Simulator):
                     for (e, uu) in list(registered):
                         if uu == u:
                             registered.discard((e, uu))
+                    for (e, uu) in list(self._optional):
+                        if uu == u:
+                            self._optional.discard((e, uu))
         # invariant
         for e, engine_id in w.engine_ids.items():
             if engine_id is None:
@@ -628,9 +656,10 @@ class SimA(Simulator):
             if ed is None:
                 continue
             want = {u for (ee, u) in registered if ee == e and is_live(u)}
+            allowed = want | {u for (ee, u) in self._optional if ee == e and is_live(u)}
             got = set(ed.active_users)
-            if got != want:
-                extra, missing = got - want, want - got
+            if got - allowed or want - got:
+                extra, missing = got - allowed, want - got
                 if extra:
                     res.add("C37", "C37.user_listed_without_live_connection", "active_users", step,
                             f"unit {e}: active users {sorted(got)}, expected {sorted(want)} (live connections "
